@@ -24,7 +24,7 @@ package nlp
 //@ func (*ProcessedQuery).GetEnhancedKeywords
 //@   modifies nothing
 //@   ensures[nlp.enhanced-fresh] fresh(result)
-//@   ensures[C06.enhanced-nodup] noDup(result)
+//@   proves[C06.enhanced-nodup] noDup(result)
 //@   ensures[C06.enhanced-keywords-first] noDup(pq.Keywords) ==> len(result) >= len(pq.Keywords) && (forall i int :: 0 <= i && i < len(pq.Keywords) ==> result[i] == pq.Keywords[i])
 //@   hint[C06.prefix-copied] removeDuplicates len(enhanced) >= len(pq.Keywords) && (forall i int :: 0 <= i && i < len(pq.Keywords) ==> enhanced[i] == pq.Keywords[i])
 //@   hint[C06.prefix-nodup] removeDuplicates noDup(pq.Keywords) ==> noDupUpTo(enhanced, len(pq.Keywords))
